@@ -86,9 +86,11 @@ def relation(R, o, n, old_ir, new_ir, lang):
         return 'new-assignable-to-old-by-conversion'
     if conv_assignable(old_ir, new_ir, ob, nb, R, lang):
         return 'old-assignable-to-new-by-conversion'
-    small = ('ByteType', 'ShortType', 'CharType', 'IntegerType')
-    if lang in ('java', 'groovy') and ob[0] == 'b' and nb[0] == 'b' and ob[1] in small and nb[1] in small:
-        # JLS 5.2: a constant expression of type byte/short/char/int may be narrowed (and then boxed)
+    numeric = ('ByteType', 'ShortType', 'CharType', 'IntegerType', 'LongType', 'FloatType', 'DoubleType', 'NumberType',
+               'BigDecimalType', 'BigIntegerType')
+    if lang in ('java', 'groovy') and ob[0] == 'b' and nb[0] == 'b' and ob[1] in numeric and nb[1] in numeric:
+        # Java / Groovy convert between numeric types in many contexts that are not plain assignments: constant
+        # narrowing (JLS 5.2), binary numeric promotion of `c ? f() : -80` followed by boxing, arithmetic results ...
         return 'numeric-constant-narrowing'
     return 'unrelated'
 
